@@ -112,6 +112,33 @@ def h_skip(params, vals, ctx):
     return code[pre + s] == 2 and o.symbol("L") == b + pre + s and o.base == b
 
 
+def h_align_repeat(params, vals, ctx):
+    """'. = (. + 3) / 4 * 4' (round the location up to a multiple of four) inside a '.repeat' body: every copy rounds its own '.'."""
+    b, n = vals["B"], params["n"]
+    require(16 <= b < 60000)
+    expr = params["expr"]
+    o = assemble([("a.mac", ".link {B}\n.repeat %d {\n.byte 1\n. = %s\n}\nL: .byte 2\n" % (n, expr))], vals, route=ctx.route)
+    ctx.observe_outcome(o)
+    ctx.reach(o.status == "ok")
+    if o.status != "ok" or o.errors:
+        return False
+    m = params["m"]
+    a = b
+    for _ in range(n):
+        a = a + 1
+        a = a + (-a) % m
+    code = o.code
+    if len(code) != a - b + 1:
+        return False
+    pos = b
+    for _ in range(n):
+        if code[pos - b] != 1:
+            return False
+        pos = pos + 1
+        pos = pos + (-pos) % m
+    return code[a - b] == 2 and o.symbol("L") == a
+
+
 def h_skip_repeat(params, vals, ctx):
     """'. = . + S' inside a '.repeat' body skips in every copy."""
     b, sk, n = vals["B"], vals["S"], params["n"]
@@ -243,9 +270,14 @@ def obligations(tier, seed):
         ("dot-rel", ".link {B}\n.byte 1\n. = . + {S}\nL: .byte 2\n", 1),
         ("label-rel", ".link {B}\nA: .byte 1, 1, 1\n. = A + 3 + {S}\nL: .byte 2\n", 3),
         ("after-dot-base", ". = {B}\n.byte 1\n. = . + {S}\nL: .byte 2\n", 1),
+        ("target-defined-later", ".link {B}\n.byte 1\n. = tgt\nL: .byte 2\ntgt = {B} + 1 + {S}\n", 1),
+        ("gap-defined-later", ".link {B}\nA: .byte 1, 1, 1\n. = A + gap\nL: .byte 2\ng0 = {S}\ngap = g0 + 3\n", 3),
     ]:
         obs.append(Ob(oid=f"skip/{tag}", harness=HS, params={"text": text, "pre_len": pre, "max_skip": mx}, vars={"B": "int", "S": "int"},
                       timeout=400, per_path=60, note=text.replace("\n", " / "), pre=f"every S <= {mx} (all negative S), 0 <= B < 60000"))
+    for nm, expr, m in (("div4", "(. + 3) / 4 * 4", 4), ("shift8", "((. + 7) >> 3) << 3", 8), ("mod2", ". + . % 2", 2)):
+        obs.append(Ob(oid=f"skip/round-up-in-repeat/{nm}", harness="pdpverif.props.c12:h_align_repeat", params={"n": 3, "expr": expr, "m": m}, vars={"B": "int"},
+                      timeout=400, per_path=60, note=".link B / .repeat 3 { .byte 1 / . = " + expr + " } / L: .byte 2"))
     for n in (1, 2, 3):
         obs.append(Ob(oid=f"skip/in-repeat/{n}", harness="pdpverif.props.c12:h_skip_repeat", params={"n": n, "max_skip": 6}, vars={"B": "int", "S": "int"}, timeout=400, per_path=60,
                       note=".link B / .repeat n { .byte 1 / . = . + S } / L: .byte 2"))
